@@ -1,1 +1,68 @@
-// access to private items of the parent module (compiled only under --cfg rustdds_verif)
+// access to private items of rtps/writer.rs
+use super::*;
+
+impl Writer {
+  pub(crate) fn verif_matched(&self) -> Vec<GUID> {
+    self.readers.keys().copied().collect()
+  }
+  pub(crate) fn verif_repair_data(&mut self, to_reader: GUID) {
+    self.handle_repair_data_send(to_reader)
+  }
+  pub(crate) fn verif_repair_frags(&mut self, to_reader: GUID) {
+    self.handle_repair_frags_send(to_reader)
+  }
+  pub(crate) fn verif_clean(&mut self) {
+    self.handle_cache_cleaning()
+  }
+  pub(crate) fn verif_last_sn(&self) -> i64 {
+    i64::from(self.history_buffer.last_seq)
+  }
+  pub(crate) fn verif_first_sn(&self) -> i64 {
+    i64::from(self.history_buffer.first_seq)
+  }
+  pub(crate) fn verif_history_sns(&self) -> Vec<i64> {
+    self
+      .history_buffer
+      .sequence_number_to_instant
+      .keys()
+      .map(|k| i64::from(*k))
+      .collect()
+  }
+  /// (reader, repair_mode, repair_frags_requested)
+  pub(crate) fn verif_repair_enabled(&self) -> Vec<(GUID, bool, bool)> {
+    self
+      .readers
+      .values()
+      .map(|rp| (rp.remote_reader_guid, rp.repair_mode, rp.repair_frags_requested()))
+      .collect()
+  }
+  pub(crate) fn verif_acked_before(&self, r: GUID) -> Option<i64> {
+    self.readers.get(&r).map(|rp| i64::from(rp.all_acked_before))
+  }
+  pub(crate) fn verif_waiter(&self) -> Option<Vec<GUID>> {
+    self
+      .ack_waiter
+      .as_ref()
+      .map(|a| a.readers_pending.iter().copied().collect())
+  }
+  pub(crate) fn verif_digest(&self) -> String {
+    format!(
+      "hist=[{}..{}] sns={:?} hbc={:?} waiter={:?} readers={:?} tot={} inc={}",
+      i64::from(self.history_buffer.first_seq),
+      i64::from(self.history_buffer.last_seq),
+      self.verif_history_sns(),
+      self.heartbeat_message_counter,
+      self
+        .ack_waiter
+        .as_ref()
+        .map(|a| (i64::from(a.wait_until), a.readers_pending.clone())),
+      self
+        .readers
+        .values()
+        .map(|rp| format!("{rp:?}"))
+        .collect::<Vec<_>>(),
+      self.matched_readers_count_total,
+      self.requested_incompatible_qos_count,
+    )
+  }
+}
